@@ -219,9 +219,14 @@ class Task:
             try:
                 logger.debug('%s about to wait for %s', self, future)
                 future.result()
-            except Exception:
+            except BaseException:
                 # result() can also produce exceptions. We want to ignore
                 # these to be deferred to error handling down the road.
+                # That includes a BaseException another task of the
+                # transfer raised (and InterruptReader re-raised in tasks
+                # still reading their bodies): it is already recorded on
+                # the transfer coordinator, and whoever waits here still
+                # has to announce the transfer as done.
                 pass
         logger.debug('%s done waiting for dependent futures', self)
 
